@@ -420,7 +420,8 @@ func (s *SchemaOrArray) ContainsType(name string) bool {
 
 // MarshalJSON converts this schema object or array into JSON structure
 func (s SchemaOrArray) MarshalJSON() ([]byte, error) {
-	if len(s.Schemas) > 0 {
+	if len(s.Schemas) > 0 || (s.Schema == nil && s.Schemas != nil) {
+		// a tuple, possibly empty
 		return json.Marshal(s.Schemas)
 	}
 	return json.Marshal(s.Schema)
